@@ -86,9 +86,43 @@ theorem rel_abs_pinned_fails : ¬ rel_abs_pinned := by
   revert h3
   decide
 
-/-- a reference written out and parsed again (no id contains `.`, the first does not start with `!`) -/
-theorem parseRef_example :
-    parseRef (renderRef ⟨2, "box".toList, ["k".toList]⟩) = some ⟨2, "box".toList, ["k".toList]⟩ := by decide
+/-- **Strings.**  A reference whose ids contain no dot and whose first id is non-empty and does not
+    start with `!` (every `ID` token of the grammar is such an id) is parsed back exactly as written. -/
+theorem parse_render (r : Ref (List Char)) (hd : ∀ p ∈ r.path, ∀ x ∈ p, x ≠ '.')
+    (hne : r.head ≠ []) (hb : r.head.head? ≠ some '!') : parseRef (renderRef r) = some r :=
+  parseRef_renderRef r hd hne hb
+
+/-- ids as the grammar's `ID` token produces them, as far as reference syntax cares -/
+def IdLike (p : List Char) : Prop := p ≠ [] ∧ p.head? ≠ some '!' ∧ ∀ x ∈ p, x ≠ '.'
+
+/-- **Relative = absolute, on reference strings** (`_resolve_task_reference` as called by the builder) -/
+theorem resolve_rel_abs_str (F : Forest (List Char)) (hu : UniqueSibs F) (src dst : Pos)
+    (ids : List (List Char)) (hdst : pathIds F dst = some ids) (hids : ∀ p ∈ ids, IdLike p)
+    (k : Nat) (hk1 : 1 ≤ k) (hk2 : k ≤ src.length)
+    (hanc : src.take (src.length - k) <+: dst) (hlt : src.length - k < dst.length) :
+    ∃ rabs rrel, Ref.ofPath 0 ids = some rabs ∧ Ref.ofPath k (ids.drop (src.length - k)) = some rrel ∧
+      resolveStr F src (renderRef rabs) = some dst ∧ resolveStr F src (renderRef rrel) = some dst := by
+  obtain ⟨rabs, rrel, h1, h2, h3, h4⟩ := resolve_rel_abs F hu src dst ids hdst k hk1 hk2 hanc hlt
+  have wf : ∀ (up : Nat) (l : List (List Char)) (r : Ref (List Char)), (∀ p ∈ l, IdLike p) →
+      Ref.ofPath up l = some r → parseRef (renderRef r) = some r := by
+    intro up l r hl hr
+    cases l with
+    | nil => simp [Ref.ofPath] at hr
+    | cons h t =>
+      simp only [Ref.ofPath, Option.some.injEq] at hr
+      subst hr
+      exact parse_render _ (fun p hp => (hl p hp).2.2) (hl h (by simp)).1 (hl h (by simp)).2.1
+  refine ⟨rabs, rrel, h1, h2, ?_, ?_⟩
+  · simp [resolveStr, wf 0 ids rabs hids h1, h3]
+  · simp [resolveStr, wf k _ rrel (fun p hp => hids p (List.mem_of_mem_drop hp)) h2, h4]
+
+example : parseRef "!!box.k".toList = some ⟨2, "box".toList, ["k".toList]⟩ ∧
+    renderRef ⟨2, "box".toList, ["k".toList]⟩ = "!!box.k".toList ∧
+    (∀ p ∈ ["box".toList, "k".toList], IdLike p) := by
+  refine ⟨by decide, by decide, ?_⟩
+  intro p hp
+  simp only [List.mem_cons, List.not_mem_nil, or_false] at hp
+  rcases hp with rfl | rfl <;> exact ⟨by decide, by decide, by decide⟩
 
 /-! ## `precedes` -/
 
@@ -111,17 +145,64 @@ theorem precedes_is_depends (F : Forest (List Char)) (st : DepStore) (A B : Pos)
   · intro q hq
     rw [h1, getDeps_extendDeps]; simp [hq]
 
+/-- **Whole project.**  Take a project with pending `depends` lists `pd` and pending `precedes` lists
+    `pp`.  Writing one more edge as `A precedes B {opts}` (appended to `pp`) or as `B depends A {opts}`
+    (appended to `pd`) gives every task the same dependency list up to the order of its entries —
+    provided the project does not already make `A` a dependency of `B`. -/
+theorem precedes_is_depends_project (F : Forest (List Char)) (pd pp : List (Pos × List DepItem)) (A B : Pos)
+    (refB refA : List Char) (opts : DepOpts)
+    (hB : resolveStr F A refB = some B) (hA : resolveStr F B refA = some A)
+    (hfresh : (getDeps (finalDeps F pd pp) B).any (fun e => decide (e.target = A)) = false)
+    (hno : ∀ pi ∈ pp, ∀ it ∈ pi.2, ¬ (pi.1 = A ∧ resolveStr F pi.1 it.ref = some B)) (q : Pos) :
+    (getDeps (finalDeps F (pd ++ [(B, [⟨refA, opts⟩])]) pp) q).Perm
+      (getDeps (finalDeps F pd (pp ++ [(A, [⟨refB, opts⟩])])) q) := by
+  have hL : finalDeps F (pd ++ [(B, [⟨refA, opts⟩])]) pp =
+      resolvePrecedes F pp (extendDeps (resolveDependencies F pd emptyStore) B [mkEntry A opts]) := by
+    simp [finalDeps, resolveDependencies, List.foldl_append, resolveItems_single F B A refA opts hA]
+  have hR : finalDeps F pd (pp ++ [(A, [⟨refB, opts⟩])]) =
+      extendDeps (finalDeps F pd pp) B [mkEntry A opts] := by
+    have : finalDeps F pd (pp ++ [(A, [⟨refB, opts⟩])]) = precedeOne F (finalDeps F pd pp) A ⟨refB, opts⟩ := by
+      simp [finalDeps, resolvePrecedes, List.foldl_append]
+    rw [this]
+    simp [precedeOne, hB, hfresh]
+  have h0 : StoreRel B (mkEntry A opts) (resolveDependencies F pd emptyStore)
+      (extendDeps (resolveDependencies F pd emptyStore) B [mkEntry A opts]) := by
+    intro q
+    rw [getDeps_extendDeps]
+    by_cases hq : q = B
+    · subst hq; simp
+    · simp [hq]
+  have h1 := StoreRel.resolvePrecedes F pp (by simpa using hno) h0 q
+  rw [hL, hR, getDeps_extendDeps]
+  by_cases hq : q = B
+  · subst hq
+    simp only [if_true] at h1 ⊢
+    exact h1.trans (List.perm_append_singleton _ _).symm
+  · simpa [hq, finalDeps] using h1
+
+/-- the hypotheses of `precedes_is_depends_project` hold in a project that already has a `depends`
+    and another `precedes` -/
+example :
+    let F : Forest (List Char) := [.node ['a'] [], .node ['b'] [], .node ['c'] []]
+    let pd : List (Pos × List DepItem) := [([1], [⟨['c'], {}⟩])]
+    let pp : List (Pos × List DepItem) := [([2], [⟨['a'], { onstart := true }⟩])]
+    resolveStr F [0] ['b'] = some [1] ∧ resolveStr F [1] ['!', 'a'] = some [0] ∧
+      (getDeps (finalDeps F pd pp) [1]).any (fun e => decide (e.target = [0])) = false ∧
+      (∀ pi ∈ pp, ∀ it ∈ pi.2, ¬ (pi.1 = [0] ∧ resolveStr F pi.1 it.ref = some [1])) ∧
+      getDeps (finalDeps F pd pp) [0] = [.dict [2] { onstart := true }] := by
+  decide
+
 /-- **No duplicates.**  Stating the same `precedes` again changes nothing. -/
 theorem precedes_twice (F : Forest (List Char)) (st : DepStore) (A : Pos) (it : DepItem) :
     precedeOne F (precedeOne F st A it) A it = precedeOne F st A it := by
   unfold precedeOne
   cases h : resolveStr F A it.ref with
-  | none => simp [h]
+  | none => simp
   | some tgt =>
     simp only []
     by_cases hx : (getDeps st tgt).any (fun e => decide (e.target = A)) = true
-    · simp [hx, h]
-    · simp only [hx, Bool.false_eq_true, if_false, h, getDeps_extendDeps, if_true]
+    · simp [hx]
+    · simp only [hx, Bool.false_eq_true, if_false, getDeps_extendDeps, if_true]
       simp
 
 /-- the hypotheses of `precedes_is_depends` hold for `a precedes b {gapduration 3h}` / `b depends a {…}`
@@ -206,6 +287,21 @@ example :
     correspondence stream.  What the model says on an example: -/
 example : process {} none "macro m [effort $1 $2]${m 4h \"x\"}".toList = .ok "effort 4h \"x\"".toList := by decide
 
+/-! ## open finding F34: comments are not inert for the preprocessor -/
+
+/-- "a `#` comment line in front of a text does not change which macros are defined" -/
+def comments_inert : Prop :=
+  ∀ (c t : List Char), (∀ x ∈ c, x ≠ '\n') → (extractMacros ('#' :: c ++ '\n' :: t)).1 = (extractMacros t).1
+
+/-- **F34 (open, refutation).**  `_extract_macros` has no notion of comments: `# macro a [x]` defines `a`.
+    (Model and code agree on this — the `mdefs` stream exercises it; the end-to-end witness is
+    `findings/F34.json`, reported as KNOWN-FINDING.) -/
+theorem comments_inert_fails : ¬ comments_inert := by
+  intro h
+  have := h " macro a [x]".toList [] (by decide)
+  revert this
+  decide
+
 /-! ## termination and size of the expansion -/
 
 /-- **`expand_bounded` (repaired expander).**  With the bound `k`: (1) at most 100 passes are made and
@@ -223,10 +319,6 @@ theorem pass_bounded_eq (E : Env) (k : Nat) (s : List Char) :
     expandOnceB E (some k) s = if (expandOnce E s).length ≤ k then some (expandOnce E s) else none :=
   expandOnceB_some E k s
 
-/-- the full statement for the PINNED expander (no bound) -/
-def expand_bounded_pinned : Prop :=
-  ∃ bound : Nat, ∀ out, expandMacros selfDouble none ['$', '{', 'a', '}'] = .ok out → out.length ≤ bound * 1000000
-
 /-- **F14 (refutation by a growth lemma).**  With `macro a [${a} ${a}]` every pass of the pinned expander
     doubles the text: after `n` passes `${a}` has become `blow n`, of length `5·2ⁿ − 1`. -/
 theorem expand_unbounded_pinned (n : Nat) :
@@ -239,6 +331,22 @@ theorem expand_unbounded_pinned (n : Nat) :
 theorem expand_pinned_result_size :
     ∃ out, expandMacros selfDouble none ['$', '{', 'a', '}'] = .ok out ∧ out.length + 1 = 5 * 2 ^ 100 :=
   ⟨blow 100, (expand_unbounded_pinned 100).1, (expand_unbounded_pinned 100).2⟩
+
+/-- "the expansion stays within a million times the size of what was written" — a very generous
+    bound, stated for the PINNED expander (no size test) -/
+def expand_bounded_pinned : Prop :=
+  ∀ (E : Env) (s out : List Char), expandMacros E none s = .ok out →
+    out.length ≤ 1000000 * (s.length + (E.defs.map (fun d => d.2.length)).sum + 1)
+
+/-- **F14.**  The pinned expander violates even that bound on `macro a [${a} ${a}]` + `${a}`. -/
+theorem expand_bounded_pinned_fails : ¬ expand_bounded_pinned := by
+  intro h
+  obtain ⟨out, h1, h2⟩ := expand_pinned_result_size
+  have := h selfDouble _ out h1
+  simp only [selfDouble, List.length_cons, List.length_nil, List.map_cons, List.map_nil, List.sum_cons,
+    List.sum_nil] at this
+  have e : out.length + 1 = 6338253001141147007483516026880 := by rw [h2]
+  omega
 
 /-- the witness as text: extraction yields exactly `selfDouble` -/
 example : extractMacros "macro a [${a} ${a}]${a}".toList = (selfDouble.defs, "${a}".toList) := by decide
